@@ -9,7 +9,27 @@ hand-modelled glue: loops, None, string dispatch, table look-ups, Vector3D.angle
 Numeric property, partial by nature: closeness of different approximations (air-mass models,
 extraterrestrial range, finiteness, DIRINT / illuminance sign) are SAMPLED sub-claims evaluated on
 the real code (ctx.subclaim), never counted as theorems.
+
+Round 3 (histories / failure paths / process order / rare classes):
+  * object state machines Model/SkyObj (Wea; ASHRAEClearSky / ASHRAETau held by a DesignDay): state = the
+    public state the user has established, no hidden slot; driver ops `hwea` / `hsky` run a whole history;
+    generated histories on ONE object (reads in any order and repeated, every setter incl. in-place edits of the
+    Location and of the irradiance collections, refused operations in between, failing reads) are compared
+    step by step with the machine (correspondence) and, in the oracle, with (i) the clauses of the statement
+    evaluated on a shadow of the public state with independently dated sun positions and (ii) a FRESH object
+    constructed from that shadow.  Theorems: C10_history_refines_fresh, C10_refused_preserves, C10_read_pure,
+    C10_history_closure, C10_history_up_surface, C10_sky_* (Props/C10, helper lemmas Proofs/C10Hist).
+  * process order: a slice of the oracle stream is evaluated in 3-4 fresh Python processes, each in another
+    order (rare classes first / last / shuffled with repeats); a failure that needs earlier calls is reported as
+    op `order` ({"order": [...]}, replayed in a fresh process); in-process failures are re-verified in a fresh
+    process before they are reported (`_verify_failures`).
+  * rare classes as strata: day 366 / 365 / 1 / 60 / fractional days, leap-year Weas incl. 29 Feb and 31 Dec,
+    year-wrapping periods, all 12 valid timesteps, single-step and sub-day Weas (explicit datetimes), sun-up
+    filtered Weas, immutable collections, zeros for every optional numeric argument, key-collision variants
+    (`_collide`), southern / polar locations, Wea.from_zhang_huang_solar (consumer of the split).
+The consumer table of every modelled producer is in the header of the history section below.
 """
+import json
 import math
 import struct
 
@@ -18,8 +38,10 @@ from harness.core import err_name, run_oracle_cases
 
 PROP = 'C10'
 PROOF_MODULES = ['Ladybug.Props.C10', 'Ladybug.Proofs.C10Gen']
-GREP_MODULES = ['Ladybug.Transc', 'Ladybug.RealInst', 'Ladybug.Model.Sky', 'Ladybug.Gen.SkyTables', 'Ladybug.Gen.SkyFormulas',
+GREP_MODULES = ['Ladybug.Transc', 'Ladybug.RealInst', 'Ladybug.Model.Sky', 'Ladybug.Model.SkyObj',
+                'Ladybug.Gen.SkyTables', 'Ladybug.Gen.SkyFormulas',
                 'Ladybug.Proofs.C10Lemmas', 'Ladybug.Proofs.C10Dirint', 'Ladybug.Proofs.C10Pinned',
+                'Ladybug.Proofs.C10Hist',
                 'Ladybug.Drv.C10', 'Ladybug.DrvCore', 'Ladybug.Py']
 RULE = ('correspondence: every skymodel.py function and the per-timestep Wea / design-day formulas on '
         'boundary-biased altitudes (-90..90 incl. 0, +-1e-9, the DISC/DIRINT thresholds 3, 3.727, the DIRINT '
@@ -31,7 +53,15 @@ RULE = ('correspondence: every skymodel.py function and the per-timestep Wea / d
         'class); floats compared by value: |m - i| <= 1e-12*max(|m|,|i|) + 1e-9; a case is non-trivial when '
         'the implementation returns a value; distinct = distinct (op, request line). Oracle: the clauses of '
         'the statement on the real code (comparisons of floats with 1e-12 relative slack for round-off '
-        'only).')
+        'only). Histories: one Wea / one sky condition + design day per case, 5-40 operations drawn from reads '
+        '(global / direct horizontal, directional incl. a surface facing the shadow sun, illuminance, sun-up '
+        'filter, duplicate), setters (location assigned or edited in place, enforce_on_hour, both irradiance '
+        'collections replaced / edited in place; date, daylight savings, clearness, tau_b, tau_d, use_2017, '
+        'design-day location, sky copy) and refused operations (wrong type, misaligned or wrongly typed data, '
+        'clearness outside 0..1.2, setters of the other sky model, reads with bad arguments, a read failing '
+        'half-way), styles probe (all observables after every step) / read-set-read / refused-first / sparse; '
+        'every read is compared with the model state machine, with the statement on the shadow state and with a '
+        'fresh object; a slice of the oracle stream is re-run in fresh processes in 3-4 different orders.')
 TRUSTED_BASE = [
     'translator tools/extract/sky_formulas.py + pyexpr2lean.py: that the emitted Lean definition denotes the Python '
     'statements it was made from (straight-line numeric code; each definition is also executed through the model '
@@ -45,6 +75,10 @@ TRUSTED_BASE = [
     'sun positions (Sunpath, property C05) and dew points (psychrometrics, property C09) are inputs of the '
     'modelled formulas, taken from the real code',
     'ladybug_geometry Vector3D.angle/magnitude modelled (acos(dot/(|a||b|)) with the round-off fallback)',
+    'history layer: the shadow of the public state and the classification of an operation as accepted/refused '
+    'follow the real outcome of each call (an accepted setter updates the shadow, a raised one does not); sun '
+    'positions of the shadow come from a Sunpath of a fresh Location (property C05); DateTime.from_moy / '
+    'AnalysisPeriod date the time steps (properties C08/C04)',
     'sampled sub-claims (air-mass agreement/monotonicity/zenith value, extraterrestrial range, finiteness, '
     'DIRINT and illuminance sign, tau-model monotonicity) are tests on the real code, not theorems',
 ]
@@ -291,6 +325,30 @@ def _suns(wea):
     return out
 
 
+def _collide(rng, cases, frac=0.12):
+    """Key-collision stratum: for a fraction of the cases add the same question again, the same question with ONE
+    numeric argument moved a little (+0.3, truncated to int, the int as float) and with one argument swapped with
+    another case's -- a memo keyed by a rounded / truncated / partial key then answers one of them wrongly, and
+    every answer is compared with the model, which is a pure function of the arguments."""
+    out = []
+    for c in cases:
+        out.append(c)
+        if rng.random() >= frac:
+            continue
+        num = [i for i, x in enumerate(c) if isinstance(x, (int, float)) and not isinstance(x, bool)]
+        if not num:
+            continue
+        i = rng.choice(num)
+        for v in (c[i] + 0.3, float(int(c[i])), int(c[i])):
+            out.append(tuple(c[:i]) + (v,) + tuple(c[i + 1:]))
+        j = rng.choice(num)
+        other = rng.choice(cases)
+        if isinstance(other[j], (int, float)) and not isinstance(other[j], bool):
+            out.append(tuple(c[:j]) + (other[j],) + tuple(c[j + 1:]))
+        out.append(c)
+    return out
+
+
 # ---------------------------------------------------------------------------------------------
 # correspondence
 
@@ -321,6 +379,8 @@ def correspondence(ctx):
               lambda c: sm.get_absolute_airmass(c[0], c[1]))
 
     cases = [(d, sc) for d in range(1, 367) for sc in (1366.1, 1370.0, 1355)]
+    cases += [(366, 1366.1), (366.0, 1366.1), (1, 0), (0, 1366.1), (365.5, 1366.1), (-1, 1366.1), (367, 1366.1)]
+    cases = _collide(rng, cases, 0.05)
     cmp_batch(ctx, 'extra', cases, lambda c: 'extra %s %s' % (fb(c[0]), fb(c[1])),
               lambda c: sm.get_extra_radiation(c[0], c[1]))
 
@@ -328,6 +388,12 @@ def correspondence(ctx):
     for _ in range(N(400, 8000)):
         cases.append((rng.choice([0.0, -10.0, rng.uniform(0, 1400)]), gen_alt(rng), rng.uniform(1300, 1420),
                       rng.choice([0.065, 0.065, 0.1]), rng.choice([1, 2.0, 0.82])))
+    cases = _collide(rng, cases)
+    # exact pole (min_sin_altitude 0 with the sun at/below the horizon): Python raises ZeroDivisionError where
+    # IEEE arithmetic gives inf that the clamp squashes; singular inputs are outside the numeric comparison
+    sing = [c for c in cases if max(math.sin(math.radians(c[1])), c[3]) * c[2] == 0]
+    ctx.count('kt_singular_skipped', len(sing))
+    cases = [c for c in cases if c not in sing]
     cmp_batch(ctx, 'kt', cases, lambda c: 'kt ' + ' '.join(fb(x) for x in c),
               lambda c: sm.clearness_index(*c))
 
@@ -353,8 +419,15 @@ def correspondence(ctx):
         ghi = rng.choice([0.0, -5.0, rng.uniform(0, 1400), 1100 * math.sin(math.radians(max(alt, 0))) *
                           rng.random()])
         p = rng.choice([None, gen_pressure(rng), gen_pressure(rng)])
-        cases.append((ghi, alt, rng.randrange(1, 367), p, rng.choice([0.065, 0.065, 0.1]),
+        cases.append((ghi, alt, rng.choice([rng.randrange(1, 367), rng.randrange(1, 367), 366, 365, 1, 60]),
+                      p, rng.choice([0.065, 0.065, 0.1, 0]),
                       rng.choice([3, 3, 0, 5.5, -5]), rng.choice([12, 12, 20])))
+        ctx.count('disc_doy:%s' % ('366' if cases[-1][2] == 366 else 'other'))
+    cases = _collide(rng, [c for c in cases if c[3] is not None], 0.08) + [c for c in cases if c[3] is None]
+    # exact pole of the clearness index (min_sin_altitude 0, sun at/below the horizon): see `kt`
+    sing = [c for c in cases if max(math.sin(math.radians(c[1])), c[4]) <= 0]
+    ctx.count('disc_singular_skipped', len(sing))
+    cases = [c for c in cases if c not in sing]
     cmp_batch(ctx, 'disc', cases,
               lambda c: 'disc %s %s %s %s %s %s %s' % (fb(c[0]), fb(c[1]), fb(c[2]), ofb(c[3]), fb(c[4]),
                                                        fb(c[5]), fb(c[6])),
@@ -384,6 +457,7 @@ def correspondence(ctx):
     for month in range(-1, 15):
         for a in ALT_EDGES + [gen_alt(rng) for _ in range(N(15, 300))]:
             cases.append((month, a, rng.choice([1, 1, 0, 0.5, 1.2, rng.uniform(0, 1.2)])))
+    cases = [c for c in _collide(rng, cases, 0.05) if isinstance(c[0], int)]
     cmp_batch(ctx, 'cs', cases, lambda c: 'cs %d %s %s' % (c[0], fb(c[1]), fb(c[2])),
               lambda c: [x[0] for x in sm.ashrae_clear_sky([c[1]], c[0], c[2])])
     cases = []
@@ -397,6 +471,7 @@ def correspondence(ctx):
     for _ in range(N(800, 16000)):
         cc, rh, t, t3, ws = gen_weather(rng)
         cases.append((gen_alt(rng), cc, rh, t, t3, ws, rng.choice([1355, 1355, rng.uniform(1300, 1420)])))
+    cases = _collide(rng, cases)
     cmp_batch(ctx, 'zh', cases, lambda c: 'zh ' + ' '.join(fb(x) for x in c),
               lambda c: sm.zhang_huang_solar(*c))
 
@@ -445,10 +520,12 @@ def correspondence(ctx):
         cases.append((rng.choice([0, 10, rng.uniform(0, 10), rng.randrange(0, 11)]), db,
                       rng.choice([db, db - rng.uniform(0, 30)])))
     cases += [(5, 20.0, -273.15), (5, 20.0, -300.0)]
+    cases = _collide(rng, cases)
     cmp_batch(ctx, 'hir', cases, lambda c: 'hir ' + ' '.join(fb(x) for x in c),
               lambda c: sm.calc_horizontal_infrared(*c))
     cases = [(rng.uniform(40, 700), rng.choice([1, 1, rng.uniform(0.3, 1)])) for _ in range(N(400, 8000))]
     cases += [(300.0, 0), (0.0, 1)]
+    cases = _collide(rng, cases)
     cmp_batch(ctx, 'skyt', cases, lambda c: 'skyt %s %s' % (fb(c[0]), fb(c[1])),
               lambda c: sm.calc_sky_temperature(*c))
 
@@ -514,6 +591,12 @@ def correspondence(ctx):
                           _b(iso)),
                       lambda i: [pick(res, e3, 0)[i] if e3 is None else pick(None, e3, 0),
                                  res[1][i], res[2][i], res[3][i]], atol=1e-7)
+
+    # --- histories on ONE object, compared step by step with the model state machines (Model/SkyObj)
+    _hist_correspondence(ctx, _WeaHist, [_gen_wea_hist(rng, ctx) for _ in range(N(10, 400))], 'hist_wea',
+                         WEA_READS)
+    _hist_correspondence(ctx, _SkyHist, [_gen_sky_hist(rng, ctx) for _ in range(N(10, 400))], 'hist_sky',
+                         SKY_READS)
 
     # --- design-day sky conditions
     from ladybug.designday import ASHRAEClearSky, ASHRAETau
@@ -601,7 +684,7 @@ def _model_outputs(sm, name, alt, p):
     raise ValueError('unknown model ' + name)
 
 
-def check_case(op, inp):
+def _check_basic(op, inp):
     from ladybug import skymodel as sm
     if op == 'night_zero':
         name, alt = inp['model'], inp['alt']
@@ -735,7 +818,43 @@ def check_case(op, inp):
         # finite, DNI/GHI >= 0, closure
         from ladybug.wea import Wea
         loc = _mk_location(inp['lat'], inp['lon'], inp['tz'])
-        if inp['kind'] == 'ashrae_clear_sky':
+        if inp['kind'] == 'zhang_huang':
+            # consumer of zhang_huang_solar_split (-> dirint / disc -> get_extra_radiation): one day of constant
+            # weather; the constructor dates the sun ON the hour, so the Wea is read with enforce_on_hour
+            from ladybug.analysisperiod import AnalysisPeriod
+            from ladybug.datacollection import HourlyContinuousCollection
+            from ladybug.header import Header
+            from ladybug.datatype.fraction import TotalSkyCover, RelativeHumidity
+            from ladybug.datatype.temperature import DryBulbTemperature
+            from ladybug.datatype.speed import WindSpeed
+            ts = inp.get('timestep', 1)
+            ap = AnalysisPeriod(inp['month'], inp['day'], 0, inp['month'], inp['day'], 23, ts, inp['leap'])
+            n = len(ap)
+
+            def coll(dt_, unit, v):
+                return HourlyContinuousCollection(Header(dt_, unit, ap), [v] * n)
+            try:
+                wea = Wea.from_zhang_huang_solar(loc, coll(TotalSkyCover(), 'tenths', inp['cc']),
+                                                 coll(RelativeHumidity(), '%', inp['rh']),
+                                                 coll(DryBulbTemperature(), 'C', inp['t']),
+                                                 coll(WindSpeed(), 'm/s', inp['ws']), None, inp['use_disc'])
+            except Exception as e:
+                return {'required': 'finite irradiance for %d/%d leap=%r' % (inp['month'], inp['day'], inp['leap']),
+                        'observed': 'raises %s: %s' % (type(e).__name__, e),
+                        'sig': {'clause': 'finite', 'model': 'wea_zhang_huang', 'raises': type(e).__name__}}
+            wea.enforce_on_hour = True
+            moy0 = (_doy(inp['month'], inp['day'], inp['leap']) - 1) * 1440
+            zsuns = [_sun_at((inp['lat'], inp['lon'], inp['tz']), inp['leap'], moy0 + i * (60 // ts))
+                     for i in range(n)]
+            zdn = list(wea.direct_normal_irradiance.values)
+            zdh = list(wea.diffuse_horizontal_irradiance.values)
+            for i, (alt, _az) in enumerate(zsuns):
+                g = sm.zhang_huang_solar(alt, inp['cc'], inp['rh'], inp['t'], inp['t'], inp['ws'])
+                if not _rel(g, zdh[i] + zdn[i] * math.sin(math.radians(alt))):
+                    return {'required': 'dhi + dni*sin(alt) = zhang_huang_solar = %r at step %d' % (g, i),
+                            'observed': zdh[i] + zdn[i] * math.sin(math.radians(alt)),
+                            'sig': {'clause': 'closure', 'where': 'wea_zhang_huang'}}
+        elif inp['kind'] == 'ashrae_clear_sky':
             wea = Wea.from_ashrae_clear_sky(loc, inp['clearness'], inp['timestep'], inp['leap'])
         else:
             wea = Wea.from_ashrae_revised_clear_sky(loc, [inp['tb']] * 12, [inp['td']] * 12, inp['timestep'],
@@ -833,6 +952,21 @@ def check_case(op, inp):
             return {'required': 'maximum in early January (doy <= 10)', 'observed': arg,
                     'sig': {'clause': 'extra_january'}}
         return None
+    if op == 'extra_day':
+        doy, sc = inp['doy'], inp['sc']
+        b = (2. * math.pi / 365.) * (doy - 1)
+        want = sc * (1.00011 + 0.034221 * math.cos(b) + 0.00128 * math.sin(b) + 0.000719 * math.cos(2 * b) +
+                     7.7e-05 * math.sin(2 * b))
+        try:
+            got = sm.get_extra_radiation(doy, sc)
+        except Exception as e:
+            return {'required': 'finite extraterrestrial irradiance on day %r' % doy,
+                    'observed': 'raises %s: %s' % (type(e).__name__, e),
+                    'sig': {'clause': 'extra_day', 'raises': type(e).__name__}}
+        if not (_fin([got]) and abs(got / sc - 1) <= 0.04 and _rel(got, want, 1e-12, 0)):
+            return {'required': 'within 4 %% of the solar constant (Spencer: %r) on day %r' % (want, doy),
+                    'observed': got, 'sig': {'clause': 'extra_day'}}
+        return None
     if op == 'skytemp_inverse':
         sigma = 5.6697e-8
         eps, t = inp['emissivity'], inp['t_kelvin']
@@ -855,6 +989,1062 @@ def check_case(op, inp):
     raise ValueError('unknown op ' + op)
 
 
+# =============================================================================================
+# round 3: histories on ONE object, refused operations, fresh-object reference, process order
+#
+# Stateful classes the property anchors: Wea (setters location / enforce_on_hour / direct_normal_irradiance /
+# diffuse_horizontal_irradiance, in-place edits of the two collections and of the Location), ASHRAEClearSky /
+# ASHRAETau (setters date / daylight_savings / clearness / tau_b / tau_d / use_2017) and the DesignDay holding
+# them (setters location / sky_condition).  skymodel.py is pure functions + module constants.
+#
+# Consumers of every modelled producer (C = compared with the model, O = oracle, H = history ops):
+#   get_extra_radiation ....... direct (C extra, O extra_range/order), disc -> dirint -> zhang_huang_solar_split
+#                               -> Wea.from_zhang_huang_solar (O wea_constructor kind=zhang_huang), clearness_index
+#   get_relative_airmass ...... direct (C relam, O airmass_*), disc, ashrae_revised_clear_sky, illuminance
+#   get_absolute_airmass ...... direct (C absam, O absam_linear), disc
+#   zhang_huang_solar ......... direct (C zh, O night_zero/day_physical), zhang_huang_solar_split (C zhsplit,
+#                               O closure_zh), Wea.from_zhang_huang_solar (O wea_constructor)
+#   disc / dirint / _disc_kn .. direct (C disc/dirint/disckn, O), zhang_huang_solar_split (both branches)
+#   ashrae_clear_sky .......... direct (C cs, O clear_monotone), ASHRAEClearSky.radiation_values (C designday,
+#                               H hist_sky rad), DesignDay.hourly_solar_radiation (O closure_designday, H dd),
+#                               Wea.from_ashrae_clear_sky (O wea_constructor)
+#   ashrae_revised_clear_sky .. direct (C rcs, O), ASHRAETau.radiation_values (C, H), DesignDay (O, H),
+#                               Wea.from_ashrae_revised_clear_sky (O wea_constructor)
+#   estimate_illuminance_from_irradiance .. direct (C illum, O), Wea.estimate_illuminance_components (C illum_wea,
+#                               O illum_wea, H illum)
+#   calc_horizontal_infrared .. direct (C hir, O skytemp_inverse), DesignDay.hourly_horizontal_infrared (H ir)
+#   calc_sky_temperature ...... direct (C skyt, O skytemp_inverse)
+#   Wea sun altitudes ......... global_horizontal_irradiance (C ghi, H ghi), direct_horizontal_irradiance (C dirh,
+#                               H dirh), directional_irradiance (C dirirr, H dirirr/face),
+#                               estimate_illuminance_components (H illum), filter_by_sun_up (H sunup),
+#                               Wea.duplicate (H dup_ghi)
+# Not exercised: Wea.from_stat_file / from_epw_file (file readers, properties C01/C12), EPW.sky_temperature.
+
+TIMESTEPS = [1, 2, 3, 4, 5, 6, 10, 12, 15, 20, 30, 60]
+WEA_READS = ('ghi', 'dirh', 'dirirr', 'face', 'illum', 'sunup', 'dup_ghi')
+SKY_READS = ('rad', 'dd', 'ir')
+
+_SP_MEMO = {}
+_SUN_MEMO = {}
+
+
+def _sun_at(loc, sp_leap, moy, dt_leap=None):
+    """(altitude, azimuth) of the sun: a Sunpath made from a FRESH Location (sun positions are property C05 and
+    an input here).  The memo is the harness's own and keyed by the complete public input."""
+    dt_leap = sp_leap if dt_leap is None else dt_leap
+    key = (loc[0], loc[1], loc[2], bool(sp_leap), moy, bool(dt_leap))
+    r = _SUN_MEMO.get(key)
+    if r is None:
+        from ladybug.sunpath import Sunpath
+        from ladybug.dt import DateTime
+        sp = _SP_MEMO.get(key[:4])
+        if sp is None:
+            sp = Sunpath.from_location(_mk_location(*loc))
+            sp.is_leap_year = bool(sp_leap)
+            _SP_MEMO[key[:4]] = sp
+        s = sp.calculate_sun_from_date_time(DateTime.from_moy(moy, bool(dt_leap)))
+        if len(_SUN_MEMO) > 300000:
+            _SUN_MEMO.clear()
+        r = _SUN_MEMO[key] = (s.altitude, s.azimuth)
+    return r
+
+
+def _doy(month, day, leap):
+    import datetime
+    return datetime.date(2016 if leap else 2017, month, day).timetuple().tm_yday
+
+
+def _interleave(cols):
+    n = min(len(c) for c in cols) if cols else 0
+    if any(len(c) != n for c in cols):
+        raise ValueError('columns of different length: %r' % [len(c) for c in cols])
+    return [c[i] for i in range(n) for c in cols]
+
+
+def _same(a, b, atol=1e-12):
+    if a is None or b is None:
+        return a is None and b is None
+    try:
+        if math.isnan(a) or math.isnan(b):
+            return math.isnan(a) and math.isnan(b)
+        return a == b or abs(a - b) <= 1e-12 * max(abs(a), abs(b)) + atol
+    except TypeError:
+        return False
+
+
+class _Diverged(Exception):
+    """the implementation accepted an argument the history generator meant as refused: nothing to compare"""
+
+
+class _WeaHist(object):
+    """One Wea object, its shadow (the public state the user has established) and the operations on it.
+
+    spec: {'locs': [[lat, lon, tz], ...], 'period': {'st': [m, d], 'end': [m, d], 'timestep', 'leap'},
+           'pick': None | [indices]   (explicit datetimes -> HourlyDiscontinuousCollection),
+           'dnr': [...], 'dhr': [...], 'sun_up_only': bool, 'immutable': bool, 'ops': [...]}"""
+
+    def __init__(self, spec):
+        from ladybug.wea import Wea
+        self.spec = spec
+        p = spec['period']
+        self.leap, self.ts = bool(p['leap']), p['timestep']
+        self.locs = [tuple(x) for x in spec['locs']]
+        self.immutable = bool(spec.get('immutable'))
+        ap = self._ap()
+        all_dts = list(ap.datetimes)
+        pick = spec.get('pick')
+        sel = list(range(len(all_dts))) if pick is None else list(pick)
+        self.continuous = pick is None
+        self.datetimes = None if pick is None else [all_dts[i] for i in sel]
+        moys = [all_dts[i].moy for i in sel]
+        dnr, dhr = list(spec['dnr'])[:len(sel)], list(spec['dhr'])[:len(sel)]
+        dn, dh = self._colls(dnr, dhr)
+        wea = Wea(_mk_location(*self.locs[0]), dn, dh)
+        if spec.get('sun_up_only'):
+            half = 30 if self.ts == 1 else 0
+            up = [i for i in range(len(moys)) if _sun_at(self.locs[0], self.leap, moys[i] + half)[0] > 0]
+            if up:
+                wea = wea.filter_by_sun_up()
+                self.continuous = False
+                self.datetimes = list(wea.direct_normal_irradiance.datetimes)
+                moys, dnr, dhr = [moys[i] for i in up], [dnr[i] for i in up], [dhr[i] for i in up]
+        self.wea = wea
+        self.immutable = 'Immutable' in type(wea.direct_normal_irradiance).__name__
+        self.moys = moys
+        self.base_dnr, self.base_dhr = list(dnr), list(dhr)
+        self.shadow = {'loc': 0, 'enforce': False, 'dnr': list(dnr), 'dhr': list(dhr)}
+        self.n = len(moys)
+
+    def _ap(self):
+        from ladybug.analysisperiod import AnalysisPeriod
+        p = self.spec['period']
+        return AnalysisPeriod(p['st'][0], p['st'][1], 0, p['end'][0], p['end'][1], 23, p['timestep'],
+                              bool(p['leap']))
+
+    def _coll(self, dtype, vals, datetimes='own', immutable=None):
+        from ladybug.datacollection import HourlyContinuousCollection, HourlyDiscontinuousCollection
+        from ladybug.header import Header
+        dts = self.datetimes if datetimes == 'own' else datetimes
+        unit = 'C' if dtype.__class__.__name__ == 'DewPointTemperature' else 'W/m2'
+        if dts is None:
+            c = HourlyContinuousCollection(Header(dtype, unit, self._ap()), list(vals))
+        else:
+            c = HourlyDiscontinuousCollection(Header(dtype, unit, self._ap()), list(vals), list(dts))
+        if self.immutable if immutable is None else immutable:
+            c = c.to_immutable()
+        return c
+
+    def _colls(self, dnr, dhr):
+        from ladybug.datatype.energyflux import DirectNormalIrradiance, DiffuseHorizontalIrradiance
+        return self._coll(DirectNormalIrradiance(), dnr), self._coll(DiffuseHorizontalIrradiance(), dhr)
+
+    # -- the shadow side -------------------------------------------------------------------
+    def suns(self, loc=None, enforce=None):
+        sh = self.shadow
+        loc = self.locs[sh['loc'] if loc is None else loc]
+        enforce = sh['enforce'] if enforce is None else enforce
+        half = 30 if (self.ts == 1 and not enforce) else 0
+        return [_sun_at(loc, self.leap, m + half) for m in self.moys]
+
+    def fresh(self):
+        """A new Wea constructed from the shadow state only."""
+        from ladybug.wea import Wea
+        sh = self.shadow
+        dn, dh = self._colls(sh['dnr'], sh['dhr'])
+        w = Wea(_mk_location(*self.locs[sh['loc']]), dn, dh)
+        if sh['enforce']:
+            w.enforce_on_hour = True
+        return w
+
+    def resolve(self, op):
+        """`face` -> the directional read it stands for (surface normal = shadow sun vector of a sun-up step)."""
+        if op[0] != 'face':
+            return op, None
+        suns = self.suns()
+        ups = [i for i, s in enumerate(suns) if s[0] > 0]
+        if not ups:
+            return ['dirirr', 90, 180, op[2], op[3]], None
+        j = ups[op[1] % len(ups)]
+        return ['dirirr', suns[j][0], suns[j][1], op[2], op[3]], j
+
+    # -- the real side ---------------------------------------------------------------------
+    def read(self, wea, op):
+        """Flat list of numbers (per step interleaved columns) of one read on `wea`."""
+        op, _j = self.resolve(op)
+        name = op[0]
+        if name == 'ghi':
+            return list(wea.global_horizontal_irradiance.values)
+        if name == 'dup_ghi':
+            return list(wea.duplicate().global_horizontal_irradiance.values)
+        if name == 'dirh':
+            return list(wea.direct_horizontal_irradiance.values)
+        if name == 'dirirr':
+            return _interleave([list(c.values) for c in wea.directional_irradiance(op[1], op[2], op[3], op[4])])
+        if name == 'illum':
+            from ladybug.datatype.temperature import DewPointTemperature
+            dew = self._coll(DewPointTemperature(), [op[1]] * self.n, immutable=False)
+            return _interleave([list(c.values) for c in wea.estimate_illuminance_components(dew)])
+        if name == 'sunup':
+            w2 = wea.filter_by_sun_up(op[1])
+            return _interleave([list(w2.direct_normal_irradiance.values),
+                                list(w2.diffuse_horizontal_irradiance.values)])
+        raise ValueError('unknown read ' + name)
+
+    def _new_vals(self, base, a, b):
+        return [max(0.0, v * a + b) for v in base]
+
+    def apply(self, op):
+        """Execute one op on the real object -> (status, values | None); the shadow follows accepted setters."""
+        from ladybug.datatype.energyflux import DirectNormalIrradiance, DiffuseHorizontalIrradiance
+        name, sh, wea = op[0], self.shadow, self.wea
+        try:
+            if name in WEA_READS:
+                return 'ok', self.read(wea, op)
+            if name == 'set_loc':
+                wea.location = _mk_location(*self.locs[op[1]])
+                sh['loc'] = op[1]
+            elif name == 'mut_loc':
+                lat, lon, tz = self.locs[op[1]]
+                loc = wea.location
+                loc.latitude, loc.longitude, loc.time_zone = lat, lon, tz
+                sh['loc'] = op[1]
+            elif name == 'set_enforce':
+                wea.enforce_on_hour = op[1]
+                sh['enforce'] = bool(op[1])
+            elif name == 'set_dnr':
+                vals = self._new_vals(self.base_dnr, op[1], op[2])
+                wea.direct_normal_irradiance = self._coll(DirectNormalIrradiance(), vals)
+                sh['dnr'] = vals
+            elif name == 'set_dhr':
+                vals = self._new_vals(self.base_dhr, op[1], op[2])
+                wea.diffuse_horizontal_irradiance = self._coll(DiffuseHorizontalIrradiance(), vals)
+                sh['dhr'] = vals
+            elif name == 'vals_dnr':
+                vals = self._new_vals(self.base_dnr, op[1], op[2])
+                wea.direct_normal_irradiance.values = vals
+                sh['dnr'] = list(vals)
+            elif name == 'item_dnr':
+                wea.direct_normal_irradiance[op[1] % self.n] = op[2]
+                sh['dnr'][op[1] % self.n] = op[2]
+            elif name == 'item_dhr':
+                wea.diffuse_horizontal_irradiance[op[1] % self.n] = op[2]
+                sh['dhr'][op[1] % self.n] = op[2]
+            elif name == 'bad_loc':
+                wea.location = {'str': 'Chicago', 'none': None, 'tuple': (41.0, -87.0)}[op[1]]
+            elif name in ('bad_dnr', 'bad_dhr'):
+                good, other = (DirectNormalIrradiance, DiffuseHorizontalIrradiance)
+                # the refused data differ from the current ones, so that a leak into the object is observable
+                cur = [v * 0.5 + 7.0 for v in (sh['dnr'] if name == 'bad_dnr' else sh['dhr'])]
+                if name == 'bad_dhr':
+                    good, other = other, good
+                if op[1] == 'short':
+                    if self.n < 2:
+                        arg = 'no collection'
+                    elif self.datetimes is None:     # a continuous collection of another period
+                        from ladybug.analysisperiod import AnalysisPeriod
+                        from ladybug.datacollection import HourlyContinuousCollection
+                        from ladybug.header import Header
+                        ap = AnalysisPeriod(1, 1, 0, 1, 1, 23, self.ts, self.leap)
+                        if len(ap) == self.n:
+                            ap = AnalysisPeriod(1, 1, 0, 1, 2, 23, self.ts, self.leap)
+                        arg = HourlyContinuousCollection(Header(good(), 'W/m2', ap), [1.0] * len(ap))
+                    else:
+                        arg = self._coll(good(), cur[:-1], self.datetimes[:-1])
+                elif op[1] == 'dtype':
+                    arg = self._coll(other(), cur)
+                else:
+                    arg = list(cur)
+                if name == 'bad_dnr':
+                    wea.direct_normal_irradiance = arg
+                else:
+                    wea.diffuse_horizontal_irradiance = arg
+                raise _Diverged()         # accepted although meant as refused: nothing to compare any more
+            elif name == 'bad_dirirr':
+                wea.directional_irradiance('up', 180)
+            elif name == 'bad_illum':
+                from ladybug.datatype.temperature import DewPointTemperature
+                if op[1] == 'short' and self.n >= 2:
+                    dts = None if self.datetimes is None else self.datetimes[:-1]
+                    if dts is None:
+                        from ladybug.analysisperiod import AnalysisPeriod
+                        from ladybug.datacollection import HourlyContinuousCollection
+                        from ladybug.header import Header
+                        ap = AnalysisPeriod(1, 1, 0, 1, 1, 23, self.ts, self.leap)
+                        if len(ap) == self.n:
+                            ap = AnalysisPeriod(1, 1, 0, 1, 2, 23, self.ts, self.leap)
+                        dew = HourlyContinuousCollection(Header(DewPointTemperature(), 'C', ap), [5.0] * len(ap))
+                    else:
+                        dew = self._coll(DewPointTemperature(), [5.0] * (self.n - 1), dts, immutable=False)
+                else:                                # fails half-way: a non-number in the middle of the data
+                    vals = [5.0] * self.n
+                    vals[self.n // 2] = 'x'
+                    dew = self._coll(DewPointTemperature(), vals, immutable=False)
+                wea.estimate_illuminance_components(dew)
+            elif name == 'bad_sunup':
+                wea.filter_by_sun_up('x')
+            elif name == 'bad_get':
+                wea.get_irradiance_value(13, 1, 0)
+            else:
+                raise ValueError('unknown op ' + name)
+            return 'ok', None
+        except _Diverged:
+            raise
+        except Exception as e:
+            return 'err:' + err_name(e), None
+
+    # -- model side ------------------------------------------------------------------------
+    def model_line(self):
+        nl = len(self.locs)
+        toks = ['hwea', str(self.ts), str(self.n), str(nl)]
+        for k in range(nl):
+            for enforce in (True, False):                 # table 0 = on the hour, table 1 = half hour
+                for alt, az in self.suns(k, enforce):
+                    toks += [fb(alt), fb(az)]
+        toks += [fb(v) for v in self.base_dnr] + [fb(v) for v in self.base_dhr]
+        return toks
+
+    def model_tokens(self, op):
+        """Tokens of one op for the model; evaluated BEFORE the op is applied (uses the shadow)."""
+        rop, _j = self.resolve(op)
+        name, sh = rop[0], self.shadow
+        if name in ('ghi', 'dup_ghi'):
+            return ['G']
+        if name == 'dirh':
+            return ['H']
+        if name == 'dirirr':
+            return ['D', fb(rop[1]), fb(rop[2]), fb(rop[3]), _b(rop[4])]
+        if name == 'illum':
+            return ['I', fb(rop[1])]
+        if name == 'sunup':
+            return ['U', fb(rop[1])]
+        if name in ('set_loc', 'mut_loc'):
+            return ['L', str(rop[1])]
+        if name == 'set_enforce':
+            return ['E', _b(rop[1])]
+        if name in ('set_dnr', 'vals_dnr'):
+            if name == 'vals_dnr' and self.immutable:
+                return ['X']
+            vals = self._new_vals(self.base_dnr, rop[1], rop[2])
+            return ['N', str(len(vals))] + [fb(v) for v in vals]
+        if name == 'set_dhr':
+            vals = self._new_vals(self.base_dhr, rop[1], rop[2])
+            return ['F', str(len(vals))] + [fb(v) for v in vals]
+        if name in ('item_dnr', 'item_dhr'):
+            if self.immutable:
+                return ['X']
+            return ['S' if name == 'item_dnr' else 'T', str(rop[1] % self.n), fb(rop[2])]
+        if name == 'bad_loc':
+            return ['L', '99']
+        if name == 'bad_illum' and (rop[1] != 'short' or self.n < 2):
+            return None                      # fails half-way only where the sun is up at the bad entry
+        if name in ('bad_dnr', 'bad_dhr') and rop[1] == 'short' and self.n >= 2:
+            cur = sh['dnr'] if name == 'bad_dnr' else sh['dhr']
+            return ['N' if name == 'bad_dnr' else 'F', str(self.n - 1)] + [fb(v) for v in cur[:-1]]
+        return ['X']
+
+
+def _status_match(model, real):
+    """model status vs real status: `err:refused` stands for any rejection."""
+    if model == 'err:refused':
+        return real.startswith('err:')
+    return model == real
+
+
+def _judge_wea(h, op, status, vals):
+    """Statement clauses on the shadow state + the fresh-object reference for one read -> None | failure."""
+    rop, face = h.resolve(op)
+    name = rop[0]
+    try:
+        fvals, fstatus = h.read(h.fresh(), op), 'ok'
+    except Exception as e:
+        fvals, fstatus = None, 'err:' + err_name(e)
+    if status != 'ok' or fstatus != 'ok':
+        if status != fstatus:
+            return {'required': 'the read answers as on a fresh Wea with the same public state: %s' % fstatus,
+                    'observed': status, 'clause': 'refines_fresh'}
+        return None
+    sh = h.shadow
+    suns = h.suns()
+    n = h.n
+    dnr, dhr = sh['dnr'], sh['dhr']
+    width = {'ghi': 1, 'dup_ghi': 1, 'dirh': 1, 'dirirr': 4, 'illum': 4}.get(name)
+    if width is not None and len(vals) != n * width:
+        return {'required': '%d values' % (n * width), 'observed': len(vals), 'clause': 'length'}
+    for i in range(n if width else 0):
+        alt = suns[i][0]
+        s = math.sin(math.radians(alt))
+        if name in ('ghi', 'dup_ghi') and not _rel(vals[i], dhr[i] + dnr[i] * s):
+            return {'required': 'ghi = dhi + dni*sin(alt) = %r at step %d (sun altitude %r of the current '
+                    'location / datetimes)' % (dhr[i] + dnr[i] * s, i, alt), 'observed': vals[i],
+                    'clause': 'closure'}
+        if name == 'dirh' and not _rel(vals[i], dnr[i] * s):
+            return {'required': 'direct horizontal = dni*sin(alt) = %r at step %d' % (dnr[i] * s, i),
+                    'observed': vals[i], 'clause': 'direct_horizontal'}
+        if name == 'dirirr':
+            tot, dr, df, rf = vals[4 * i:4 * i + 4]
+            if not _rel(tot, dr + df + rf):
+                return {'required': 'total = direct + diffuse + reflected = %r at step %d' % (dr + df + rf, i),
+                        'observed': tot, 'clause': 'total_sum'}
+            if rop[1] == 90 and alt > 0 and not _rel(tot, dhr[i] + dnr[i] * s, 1e-9, 1e-7):
+                return {'required': 'upward surface total = global horizontal = %r at step %d'
+                        % (dhr[i] + dnr[i] * s, i), 'observed': tot, 'clause': 'up_surface'}
+            if face is not None and i == face and not _rel(dr, dnr[i], 1e-9, 1e-7):
+                return {'required': 'surface facing the sun of step %d (alt %r, az %r) receives dni = %r'
+                        % (i, alt, suns[i][1], dnr[i]), 'observed': dr, 'clause': 'facing_sun'}
+        if name == 'illum':
+            four = vals[4 * i:4 * i + 4]
+            if alt <= 0 and any(v != 0 for v in four):
+                return {'required': 'illuminance 0 at sun altitude %r (step %d)' % (alt, i), 'observed': four,
+                        'clause': 'night_zero'}
+            if not _fin(four) or four[1] < 0:
+                return {'required': 'finite, direct normal illuminance >= 0 (step %d)' % i, 'observed': four,
+                        'clause': 'nonneg'}
+    if len(vals) != len(fvals) or not all(_same(a, b) for a, b in zip(vals, fvals)):
+        k = next((i for i, (a, b) in enumerate(zip(vals, fvals)) if not _same(a, b)), min(len(vals), len(fvals)))
+        return {'required': 'the values of a fresh Wea with the same public state (location %r, enforce_on_hour '
+                '%r): value %d = %r' % (h.locs[sh['loc']], sh['enforce'], k,
+                                        fvals[k] if k < len(fvals) else None),
+                'observed': vals[k] if k < len(vals) else 'only %d values' % len(vals), 'clause': 'refines_fresh'}
+    return None
+
+
+def _hist_kind(prev):
+    if prev is None:
+        return 'first_read'
+    if prev[0] in WEA_READS or prev[0] in SKY_READS:
+        return 'after_read'
+    return 'after_refused' if prev[1].startswith('err') else 'after_setter'
+
+
+def _check_hist(inp, cls, judge, reads):
+    try:
+        h = cls(inp)
+    except Exception as e:
+        return {'required': 'the object can be constructed from valid arguments',
+                'observed': 'raises %s: %s' % (type(e).__name__, e),
+                'sig': {'clause': 'construct', 'raises': type(e).__name__}}
+    prev = None
+    seen_reads = set()
+    for k, op in enumerate(inp['ops']):
+        try:
+            status, vals = h.apply(op)
+        except _Diverged:
+            return None
+        if op[0] in reads:
+            bad = judge(h, op, status, vals)
+            if bad:
+                clause = bad.pop('clause')
+                bad['required'] = 'after ops %s: %s' % (json.dumps(inp['ops'][:k + 1]), bad['required'])
+                bad['sig'] = dict(bad.pop('sig_extra', {}), clause=clause, obs=op[0], history=_hist_kind(prev),
+                                  repeated_read=json.dumps(op) in seen_reads)
+                return bad
+            seen_reads.add(json.dumps(op))
+        prev = (op[0], status)
+    return None
+
+
+# ---- sky conditions / design day ----------------------------------------------------------------
+
+
+class _SkyHist(object):
+    """One ASHRAEClearSky / ASHRAETau held by one DesignDay, its shadow and the operations on them.
+
+    spec: {'sky': 'clear'|'tau', 'dates': [[m, d, leap], ...], 'locs': [[lat, lon, tz], ...],
+           'init': {'date', 'dls', 'clearness', 'tb', 'td', 'u', 'loc'}, 'ops': [...]}"""
+
+    def __init__(self, spec):
+        self.spec = spec
+        self.kind = spec['sky']
+        self.dates = [tuple(d) for d in spec['dates']]
+        self.locs = [tuple(x) for x in spec['locs']]
+        self.shadow = dict(spec['init'])
+        self.sky, self.dd = self._make(self.shadow)
+
+    def _make(self, sh):
+        from ladybug.designday import DesignDay, DryBulbCondition, HumidityCondition, WindCondition, \
+            ASHRAEClearSky, ASHRAETau
+        from ladybug.dt import Date
+        m, d, leap = self.dates[sh['date']]
+        if self.kind == 'clear':
+            sky = ASHRAEClearSky(Date(m, d, leap), sh['clearness'], sh['dls'])
+        else:
+            sky = ASHRAETau(Date(m, d, leap), sh['tb'], sh['td'], sh['u'], sh['dls'])
+        dd = DesignDay('c10', 'SummerDesignDay', _mk_location(*self.locs[sh['loc']]), DryBulbCondition(30, 10),
+                       HumidityCondition('Wetbulb', 20, 101325), WindCondition(2, 0), sky)
+        return sky, dd
+
+    def alts(self, k, ts=1, date=None, dls=None):
+        """Sun altitudes of the design day at location k, the way the sky condition dates them."""
+        sh = self.shadow
+        m, d, leap = self.dates[sh['date'] if date is None else date]
+        start = (_doy(m, d, leap) - 1) * 1440
+        if sh['dls'] if dls is None else dls:
+            start -= 60
+        if ts == 1:
+            start += 30
+        return [_sun_at(self.locs[k], False, start + (i * (1 / ts) * 60), leap)[0] for i in range(24 * ts)]
+
+    def read(self, sky, dd, op):
+        name = op[0]
+        if name == 'rad':
+            dn, dh, gh = sky.radiation_values(_mk_location(*self.locs[op[1]]), op[2])
+            return list(dn) + list(dh) + list(gh)
+        if name == 'dd':
+            cols = [list(c.values) for c in dd.hourly_solar_radiation]
+            return cols[0] + cols[1] + cols[2]
+        if name == 'ir':
+            return list(dd.hourly_horizontal_infrared.values)
+        raise ValueError('unknown read ' + name)
+
+    def apply(self, op):
+        from ladybug.dt import Date
+        name, sh, sky, dd = op[0], self.shadow, self.sky, self.dd
+        try:
+            if name in SKY_READS:
+                return 'ok', self.read(sky, dd, op)
+            if name == 'set_clear':
+                sky.clearness = op[1]
+                sh['clearness'] = op[1]
+            elif name == 'set_tb':
+                sky.tau_b = op[1]
+                sh['tb'] = op[1]
+            elif name == 'set_td':
+                sky.tau_d = op[1]
+                sh['td'] = op[1]
+            elif name == 'set_u':
+                sky.use_2017 = op[1]
+                sh['u'] = bool(op[1])
+            elif name == 'set_date':
+                sky.date = Date(*self.dates[op[1]])
+                sh['date'] = op[1]
+            elif name == 'set_dls':
+                sky.daylight_savings = op[1]
+                sh['dls'] = bool(op[1])
+            elif name == 'dd_loc':
+                dd.location = _mk_location(*self.locs[op[1]])
+                sh['loc'] = op[1]
+            elif name == 'dd_mutloc':
+                lat, lon, tz = self.locs[op[1]]
+                loc = dd.location
+                loc.latitude, loc.longitude, loc.time_zone = lat, lon, tz
+                sh['loc'] = op[1]
+            elif name == 'swap':                      # the design day gets a copy of its sky; go on with the copy
+                dd.sky_condition = sky.duplicate()
+                self.sky = dd.sky_condition
+            elif name == 'bad_val':                   # a non-number for a numeric attribute
+                setattr(sky, op[1], {'str': '1', 'none': None, 'list': [1.0]}[op[2]])
+            elif name == 'bad_date':
+                sky.date = {'str': '21 Jun', 'list': [6, 21]}[op[1]]
+            elif name == 'bad_dd_loc':
+                dd.location = 'Chicago'
+            elif name == 'bad_dd_sky':
+                dd.sky_condition = 'clear'
+            elif name == 'bad_rad':
+                if op[1] == 'loc':
+                    sky.radiation_values(5)
+                else:
+                    sky.radiation_values(_mk_location(*self.locs[0]), 'x')
+            else:
+                raise ValueError('unknown op ' + name)
+            return 'ok', None
+        except Exception as e:
+            return 'err:' + err_name(e), None
+
+    def fresh(self):
+        return self._make(self.shadow)
+
+    def model_line(self):
+        nd, nl = len(self.dates), len(self.locs)
+        toks = ['hsky', self.kind, str(nd), str(nl)] + [str(d[0]) for d in self.dates]
+        # DesignDay.analysis_period forgets the leap-year flag of the date: 29 Feb cannot be read (known finding
+        # C10-designday-feb29); read from the source whether the flag is passed on (fixes/C10_designday_leap_period)
+        keeps = _dd_period_keeps_leap()
+        toks += [_b(keeps or not (d[2] and d[0] == 2 and d[1] == 29)) for d in self.dates]
+        for di in range(nd):
+            for dls in (False, True):
+                for k in range(nl):
+                    toks += [fb(a) for a in self.alts(k, 1, di, dls)]
+        sh = self.spec['init']
+        toks += [str(sh['date']), _b(sh['dls']), fb(sh['clearness']), fb(sh['tb']), fb(sh['td']), _b(sh['u']),
+                 str(sh['loc'])]
+        return toks
+
+    def model_tokens(self, op):
+        """None = an op the model does not see (a read it has no table for, a copy of the sky)."""
+        name = op[0]
+        num = lambda v: isinstance(v, (int, float)) and not isinstance(v, bool)   # noqa: E731
+        if name == 'rad':
+            return ['R', str(op[1])] if op[2] == 1 else None
+        if name == 'dd':
+            return ['Q']
+        if name in ('ir', 'swap'):
+            return None
+        if name == 'set_clear':
+            return ['C', fb(op[1])] if num(op[1]) else ['X']
+        if name == 'set_tb':
+            return ['B', fb(op[1])] if num(op[1]) else ['X']
+        if name == 'set_td':
+            return ['W', fb(op[1])] if num(op[1]) else ['X']
+        if name == 'set_u':
+            return ['V', _b(op[1])]
+        if name == 'set_date':
+            return ['A', str(op[1])]
+        if name == 'set_dls':
+            return ['Y', _b(op[1])]
+        if name in ('dd_loc', 'dd_mutloc'):
+            return ['P', str(op[1])]
+        if name == 'bad_dd_loc':
+            return ['P', '99']
+        if name == 'bad_rad' and op[1] == 'loc':
+            return ['R', '99']
+        return ['X']
+
+
+_DD_KEEPS_LEAP = []
+
+
+def _dd_period_keeps_leap():
+    """Does DesignDay.analysis_period hand the leap-year flag of the sky's date to AnalysisPeriod? (source text)"""
+    if not _DD_KEEPS_LEAP:
+        import inspect
+        from ladybug.designday import DesignDay
+        try:
+            _DD_KEEPS_LEAP.append('leap_year' in inspect.getsource(DesignDay.analysis_period.fget))
+        except Exception:
+            _DD_KEEPS_LEAP.append(False)
+    return _DD_KEEPS_LEAP[0]
+
+
+_EXT_MIN = []
+
+
+def _ext_min():
+    if not _EXT_MIN:
+        # Spencer's formula evaluated here (not by the code under test): the smallest extraterrestrial irradiance
+        _EXT_MIN.append(min(1366.1 * (1.00011 + 0.034221 * math.cos(b) + 0.00128 * math.sin(b) +
+                                      0.000719 * math.cos(2 * b) + 7.7e-05 * math.sin(2 * b))
+                            for b in [(2. * math.pi / 365.) * (d - 1) for d in range(1, 367)]))
+    return _EXT_MIN[0]
+
+
+def _judge_sky(h, op, status, vals):
+    try:
+        fsky, fdd = h.fresh()
+        fvals, fstatus = h.read(fsky, fdd, op), 'ok'
+    except Exception as e:
+        fvals, fstatus = None, 'err:' + err_name(e)
+    sh = h.shadow
+    name = op[0]
+    if status != 'ok' or fstatus != 'ok':
+        if status != fstatus:
+            return {'required': 'the read answers as on a fresh sky condition / design day with the same public '
+                    'state: %s' % fstatus, 'observed': status, 'clause': 'refines_fresh'}
+        m, d, leap = h.dates[sh['date']]
+        return {'required': 'finite irradiance for the design day %d/%d (leap year %r)' % (m, d, leap),
+                'observed': 'raises ' + status, 'clause': 'finite',
+                'sig_extra': {'via': 'designday' if name in ('dd', 'ir') else 'sky_condition', 'raises': status,
+                              'date': 'leap_feb29' if (leap and m == 2 and d == 29) else 'other'}}
+    if name in ('rad', 'dd'):
+        k, ts = (op[1], op[2]) if name == 'rad' else (sh['loc'], 1)
+        alts = h.alts(k, ts)
+        n = len(alts)
+        if len(vals) != 3 * n:
+            return {'required': '%d values' % (3 * n), 'observed': len(vals), 'clause': 'length'}
+        in_range = (0 <= sh['clearness'] <= 1.2) if h.kind == 'clear' else (sh['tb'] >= 0.2 and sh['td'] >= 0)
+        for i, alt in enumerate(alts):
+            dn, dh, gh = vals[i], vals[n + i], vals[2 * n + i]
+            want = dh + dn * math.sin(math.radians(alt))
+            if not _rel(gh, want):
+                return {'required': 'ghi = dhi + dni*sin(alt) = %r at hour index %d (altitude %r)' % (want, i, alt),
+                        'observed': gh, 'clause': 'closure'}
+            if alt <= 0 and (dn != 0 or dh != 0 or gh != 0):
+                return {'required': 'zero at altitude %r (index %d)' % (alt, i), 'observed': (dn, dh, gh),
+                        'clause': 'night_zero'}
+            if not _fin([dn, dh, gh]) or (in_range and (dn < 0 or gh < 0)):
+                return {'required': 'finite, dni >= 0, ghi >= 0 (index %d)' % i, 'observed': (dn, dh, gh),
+                        'clause': 'nonneg'}
+            if not dn <= _ext_min():
+                return {'required': 'clear-sky direct normal <= extraterrestrial (%r); the sky condition holds '
+                        'clearness=%r tau_b=%r' % (_ext_min(), sh['clearness'], sh['tb']), 'observed': dn,
+                        'clause': 'le_extraterrestrial'}
+    if name == 'ir':
+        from ladybug import skymodel as sm
+        for v in vals:
+            ts_ = sm.calc_sky_temperature(v)
+            if not _rel(5.6697e-8 * (ts_ + 273.15) ** 4, v, 1e-10, 0):
+                return {'required': 'sigma*(Tsky+273.15)^4 = horizontal infrared = %r' % v,
+                        'observed': 5.6697e-8 * (ts_ + 273.15) ** 4, 'clause': 'skytemp_inverse_hir'}
+    if len(vals) != len(fvals) or not all(_same(a, b) for a, b in zip(vals, fvals)):
+        k = next((i for i, (a, b) in enumerate(zip(vals, fvals)) if not _same(a, b)), min(len(vals), len(fvals)))
+        return {'required': 'the values of a fresh %s sky / design day with the same public state %r: value %d = %r'
+                % (h.kind, sh, k, fvals[k] if k < len(fvals) else None),
+                'observed': vals[k] if k < len(vals) else 'only %d values' % len(vals), 'clause': 'refines_fresh'}
+    return None
+
+
+# ---- generators of histories ----------------------------------------------------------------------
+
+
+def _pick_locs(rng, k=3):
+    pool = gen_locations(rng)
+    north = [x for x in pool if x[0] > 20]
+    south = [x for x in pool if x[0] < -20]
+    locs = [rng.choice(pool), rng.choice(south if rng.random() < 0.7 else north), rng.choice(pool)]
+    out = []
+    for x in locs:
+        while list(x) in out:
+            x = (x[0] * 0.5 + 1.0, x[1] * 0.5 + 1.0, x[2])
+        out.append(list(x))
+    return out[:k]
+
+
+def _end_date(month, day, ndays, leap):
+    import datetime
+    d0 = datetime.date(2016 if leap else 2017, month, day)
+    d1 = d0 + datetime.timedelta(days=ndays - 1)
+    return [d1.month, d1.day]
+
+
+def _gen_wea_hist(rng, ctx=None, nops=None):
+    """A Wea history.  Strata (counted): period kind, timestep, leap, continuity, immutable twins, zeros."""
+    leap = rng.random() < 0.4
+    kind = rng.choice(['days', 'days', 'days', 'hours', 'single', 'wrap', 'leapday', 'lastday', 'sunup'])
+    ts = rng.choice([1, 1, 1, 2, 4, rng.choice(TIMESTEPS)])
+    ndays = 1
+    month, day = rng.randrange(1, 13), rng.randrange(1, 28)
+    if kind == 'wrap':
+        month, day, ndays = 12, 31, 2
+    elif kind == 'leapday':
+        leap, month, day = True, 2, rng.choice([28, 29])
+        ndays = 3 - (day - 27) if rng.random() < 0.5 else 1
+    elif kind == 'lastday':
+        leap, month, day = rng.random() < 0.7, 12, 31
+    elif kind == 'days' and ts <= 2 and rng.random() < 0.3:
+        ndays = 2
+    per_day = 24 * ts
+    pick = None
+    if kind in ('hours', 'single') or per_day * ndays > 192:
+        # explicit datetimes (HourlyDiscontinuousCollection): one step, a few hours, or a thinned fine grid
+        total = per_day * ndays
+        if kind == 'single':
+            pick = [rng.randrange(total)]
+        else:
+            a = rng.randrange(0, max(1, total - 2))
+            m = rng.choice([2, 3, ts + 1, 2 * ts + 1, 12])
+            step = rng.choice([1, 1, 2]) if total <= 192 else rng.choice([1, 7, 13, ts])
+            pick = sorted(set(min(total - 1, a + j * step) for j in range(m)))
+    n = per_day * ndays
+    zero = rng.random() < 0.15
+    dnr = [0.0 if zero else rng.choice([0.0, 0, rng.uniform(0, 1000), rng.uniform(0, 1000)]) for _ in range(n)]
+    dhr = [rng.choice([0.0, 0, rng.uniform(0, 500), rng.uniform(0, 500)]) for _ in range(n)]
+    if pick is not None:
+        dnr, dhr = dnr[:len(pick)], dhr[:len(pick)]
+    spec = {'locs': _pick_locs(rng),
+            'period': {'st': [month, day], 'end': _end_date(month, day, ndays, leap) if kind != 'wrap' else [1, 1],
+                       'timestep': ts, 'leap': leap},
+            'pick': pick, 'dnr': dnr, 'dhr': dhr, 'sun_up_only': kind == 'sunup' and pick is None,
+            'immutable': rng.random() < 0.2}
+    m = len(pick) if pick is not None else n
+    reads = [['ghi'], ['dirh'], ['dirirr', 90, 180, 0.2, True], ['dirirr', 90, rng.uniform(0, 360), 0, False],
+             ['dirirr', rng.choice([0, -90, rng.uniform(-90, 90)]), rng.uniform(0, 360), rng.random(),
+              rng.random() < 0.5], ['face', rng.randrange(1000), 0.2, True], ['illum', rng.uniform(-30, 28)],
+             ['sunup', rng.choice([0, 0, -6, 5.0])], ['dup_ghi']]
+    setters = [['set_loc', 1], ['set_loc', 2], ['set_loc', 0], ['mut_loc', 1], ['mut_loc', 2],
+               ['set_enforce', True], ['set_enforce', False], ['set_enforce', 1],
+               ['set_dnr', rng.choice([0, 0.5, 1]), rng.choice([0, 0.0, 25.0])],
+               ['set_dhr', rng.choice([0, 0.5, 1]), rng.choice([0, 10.0])],
+               ['vals_dnr', 0.25, 3.0], ['item_dnr', rng.randrange(1000), rng.choice([0, 0.0, 777.0])],
+               ['item_dhr', rng.randrange(1000), rng.choice([0, 55.5])]]
+    refused = [['bad_loc', rng.choice(['str', 'none', 'tuple'])], ['bad_dnr', rng.choice(['short', 'dtype', 'list'])],
+               ['bad_dhr', rng.choice(['short', 'dtype', 'list'])], ['bad_dirirr'],
+               ['bad_illum', rng.choice(['short', 'str'])], ['bad_sunup'], ['bad_get']]
+    style = rng.choice(['probe', 'probe', 'sparse', 'refuse_first', 'read_set_read'])
+    nops = nops or (rng.randrange(4, 9) if m <= 96 else 4)
+    ops = []
+    probe = [['ghi'], ['dirh'], ['dirirr', 90, 180, 0.2, True], ['illum', 5.0]] if m <= 60 else [['ghi'], ['dirh']]
+    if style == 'refuse_first':
+        ops.append(rng.choice(refused))
+    if style in ('read_set_read', 'probe') or rng.random() < 0.5:
+        ops += [rng.choice(reads)] if style != 'probe' else list(probe)
+    for _ in range(nops):
+        r = rng.random()
+        op = rng.choice(setters) if r < 0.5 else rng.choice(refused) if r < 0.75 else rng.choice(reads)
+        ops.append(op)
+        if op[0] not in WEA_READS:
+            if style == 'probe':
+                ops += probe
+            elif style == 'read_set_read' or rng.random() < 0.6:
+                ops.append(rng.choice(reads))
+        elif rng.random() < 0.3:
+            ops.append(op)                   # the same question twice
+    if ops[-1][0] not in WEA_READS:
+        ops.append(['ghi'])
+    spec['ops'] = ops
+    if ctx is not None:
+        ctx.count('hist_wea_period:' + kind)
+        ctx.count('hist_wea_timestep:%d' % ts)
+        ctx.count('hist_wea_leap:%s' % leap)
+        ctx.count('hist_wea_collections:%s%s' % ('explicit' if pick is not None else 'sun_up' if
+                                                 spec['sun_up_only'] else 'continuous',
+                                                 '_immutable' if spec['immutable'] else ''))
+        ctx.count('hist_wea_style:' + style)
+        if pick is not None and len(pick) == 1:
+            ctx.count('hist_wea_single_step')
+        for op in ops:
+            ctx.count('hist_wea_op:' + op[0])
+    return spec
+
+
+def _gen_sky_hist(rng, ctx=None):
+    kind = rng.choice(['clear', 'tau'])
+    dates = [[rng.randrange(1, 13), rng.randrange(1, 28), False],
+             [rng.choice([2, 12]), rng.choice([28, 31, 29 if rng.random() < 0.1 else 28]), True],
+             [rng.choice([1, 6, 12]), rng.choice([1, 21, 31]), rng.random() < 0.3]]
+    for d in dates:
+        if d[0] == 2 and d[1] > 28 + (1 if d[2] else 0):
+            d[1] = 28
+        if d[0] == 6 and d[1] == 31:
+            d[1] = 30
+    spec = {'sky': kind, 'dates': dates, 'locs': _pick_locs(rng),
+            'init': {'date': rng.randrange(3), 'dls': rng.random() < 0.3,
+                     'clearness': rng.choice([1, 1.0, 0, 1.2, rng.uniform(0, 1.2)]), 'tb': rng.uniform(0.2, 0.8),
+                     'td': rng.uniform(1.5, 2.8), 'u': rng.random() < 0.5, 'loc': 0}}
+    reads = [['rad', 0, 1], ['rad', 1, 1], ['rad', 2, 1], ['dd'], ['dd'], ['rad', rng.randrange(3),
+                                                                       rng.choice([2, 3, 4, 6, 12])], ['ir']]
+    clear_vals = [0, 0.0, 1, 1.2, 0.5, rng.uniform(0, 1.2)]
+    bad_clear = [11, -1, 1.2000000000000002, -1e-9, 1.3, 100.0, -0.5]
+    setters = [['set_date', rng.randrange(3)], ['set_date', 1], ['set_dls', rng.random() < 0.5], ['set_dls', 1],
+               ['dd_loc', rng.randrange(3)], ['dd_mutloc', rng.randrange(3)], ['swap']]
+    refused = [['bad_date', rng.choice(['str', 'list'])], ['bad_dd_loc'], ['bad_dd_sky'],
+               ['bad_rad', rng.choice(['loc', 'ts'])]]
+    if kind == 'clear':
+        setters += [['set_clear', rng.choice(clear_vals)] for _ in range(3)]
+        refused += [['set_clear', rng.choice(bad_clear)] for _ in range(3)]
+        refused += [['bad_val', 'clearness', rng.choice(['str', 'none', 'list'])], ['set_tb', 0.4]]
+    else:
+        setters += [['set_tb', rng.uniform(0.2, 0.8)], ['set_td', rng.uniform(1.5, 2.8)], ['set_u', rng.random() < 0.5],
+                    ['set_tb', rng.choice([0.3, 1])], ['set_td', 2]]
+        refused += [['bad_val', rng.choice(['tau_b', 'tau_d']), rng.choice(['str', 'none', 'list'])],
+                    ['set_clear', 1.0]]
+    style = rng.choice(['probe', 'probe', 'sparse', 'refuse_first'])
+    probe = [['rad', 0, 1], ['dd']]
+    ops = [rng.choice(refused)] if style == 'refuse_first' else []
+    ops += probe if style == 'probe' else [rng.choice(reads)]
+    for _ in range(rng.randrange(4, 10)):
+        r = rng.random()
+        op = rng.choice(setters) if r < 0.45 else rng.choice(refused) if r < 0.8 else rng.choice(reads)
+        ops.append(op)
+        if op[0] not in SKY_READS:
+            ops += probe if style == 'probe' else [rng.choice(reads)] if rng.random() < 0.7 else []
+        elif rng.random() < 0.3:
+            ops.append(op)
+    if ops[-1][0] not in SKY_READS:
+        ops.append(['dd'])
+    spec['ops'] = ops
+    if ctx is not None:
+        ctx.count('hist_sky_kind:' + kind)
+        ctx.count('hist_sky_style:' + style)
+        for op in ops:
+            ctx.count('hist_sky_op:' + op[0])
+    return spec
+
+
+# ---- histories: model vs implementation, step by step ---------------------------------------------
+
+
+def _hist_correspondence(ctx, cls, specs, opname, reads):
+    """Run every history on the real object and on the model state machine and compare each step's output."""
+    runs, lines = [], []
+    for spec in specs:
+        try:
+            h = cls(spec)
+            toks = h.model_line()
+            steps = []
+            for op in spec['ops']:
+                mt = h.model_tokens(op)         # before the op: refers to the state the op meets
+                status, vals = h.apply(op)
+                if mt is not None:
+                    toks += mt
+                    steps.append((op, status, vals))
+        except _Diverged:
+            ctx.count('hist_diverged')
+            continue
+        except Exception as e:
+            ctx.disagree(opname, {'case': spec}, 'history executes', 'harness/implementation exception %s: %s'
+                         % (type(e).__name__, e))
+            continue
+        runs.append((spec, steps))
+        lines.append(' '.join(toks))
+    outs = ctx.driver().run(lines)
+    for (spec, steps), line, out in zip(runs, lines, outs):
+        mouts = [x.strip() for x in out.split('|')] if steps else []
+        ctx.compared += len(steps)
+        ctx.count('op:' + opname, len(steps))
+        ctx.case((opname, line), nontrivial=True)
+        if len(mouts) != len(steps):
+            ctx.disagree(opname, {'case': spec}, out[:300], '%d steps' % len(steps))
+            continue
+        for k, ((op, status, vals), mo) in enumerate(zip(steps, mouts)):
+            mstatus = mo.split()[0] if mo else ''
+            ok = _status_match(mstatus, status)
+            if ok and status == 'ok' and op[0] in reads:
+                try:
+                    mv = [unb(t) for t in mo.split()[1:]]
+                    ok = len(mv) == len(vals) and all(close(a, float(b), RTOL, 1e-7) for a, b in zip(mv, vals))
+                except (ValueError, TypeError):
+                    ok = False
+            if not ok:
+                ctx.disagree(opname, {'case': dict(spec, ops=spec['ops']), 'step': k, 'op': op},
+                             mo[:200], '%s %s' % (status, '' if vals is None else repr(vals[:6])))
+                break
+    if lines:
+        ctx.sample({'op': opname, 'request': lines[0][:400], 'model': outs[0][:400]})
+
+
+# ---- process-order independence ---------------------------------------------------------------------
+
+_ORDER_CHILD = ('import sys, json; sys.path.insert(0, sys.argv[1]); sys.path.insert(0, sys.argv[2]); '
+                'from harness.props import c10; c10._order_child()')
+
+
+def _order_child():
+    """Child process: evaluate the cases read from stdin IN THE GIVEN ORDER, print the results."""
+    import sys
+    cases = json.load(sys.stdin)
+    out = []
+    for op, inp in cases:
+        try:
+            r = check_case(op, inp)
+        except Exception as e:
+            r = {'required': 'oracle evaluates', 'observed': 'exception %s: %s' % (type(e).__name__, e),
+                 'sig': {'exception': type(e).__name__}}
+        out.append(r)
+    sys.stdout.write(json.dumps(out, default=str))
+
+
+def _run_order(cases, timeout=600):
+    """Evaluate `cases` in this order in a FRESH Python process -> list of results (None = holds)."""
+    import os
+    import subprocess
+    import sys
+    p = subprocess.run([sys.executable, '-c', _ORDER_CHILD, core.ROOT, core.REPO],
+                       input=json.dumps(cases, default=str).encode('utf-8'), stdout=subprocess.PIPE,
+                       stderr=subprocess.PIPE, timeout=timeout, env=dict(os.environ))
+    if p.returncode != 0:
+        return [{'required': 'the cases evaluate in a fresh process', 'observed': 'child process failed: %s'
+                 % p.stderr.decode('utf-8', 'replace')[-600:], 'sig': {'clause': 'order_child_crashed'}}]
+    return json.loads(p.stdout.decode('utf-8'))
+
+
+def _check_order(inp):
+    """Replay of a process-order failure: the stored order in a fresh process; the last case must hold."""
+    res = _run_order(inp['order'])
+    for i, r in enumerate(res):
+        if r:
+            op = inp['order'][i][0] if i < len(inp['order']) else '?'
+            sig = dict(r.get('sig') or {}, inner_op=op, clause_order='process_order')
+            return {'required': 'case %d (%s) of this order holds as it does in a process of its own: %s'
+                    % (i, op, r.get('required')), 'observed': r.get('observed'), 'sig': sig}
+    return None
+
+
+def _rarity(case):
+    """Sort key putting the rare classes first (leap / day 366 / failing calls / sub-hourly)."""
+    s = json.dumps(case, default=str)
+    score = 0
+    for mark, w in (('"doy": 366', 8), ('"leap": true', 6), ('366', 2), ('bad_', 5), ('"timestep": 1,', -1),
+                    ('hist_', 3), ('true', 1)):
+        if mark in s:
+            score -= w
+    return score
+
+
+def _order_slice(ctx):
+    """A slice of the oracle stream evaluated in fresh processes, each with another order of the cases."""
+    rng = ctx.rng
+    cases = []
+    for name in SKY_MODELS:
+        for doy in (366, 365, 1, 60):
+            p = _params(rng, name)
+            if 'doy' in p:
+                p['doy'] = doy
+            cases.append(('day_physical', {'model': name, 'alt': gen_alt(rng, up=True), 'params': p}))
+        cases.append(('night_zero', {'model': name, 'alt': gen_alt(rng, up=False), 'params': _params(rng, name)}))
+    for sc in (1366.1, 1000.0):
+        cases.append(('extra_range', {'sc': sc}))
+    cases.append(('extra_day', {'doy': 366, 'sc': 1366.1}))
+    cases.append(('extra_day', {'doy': 1, 'sc': 1366.1}))
+    for m in AM_MODELS:
+        cases.append(('airmass_zenith', {'model': m}))
+        a1 = rng.uniform(5, 80)
+        cases.append(('airmass_monotone', {'model': m, 'a1': a1, 'a2': a1 + rng.uniform(0.5, 9)}))
+    cases.append(('airmass_agree', {'alt': rng.uniform(10, 90)}))
+    for name in ('ashrae_clear_sky', 'ashrae_revised_clear_sky'):
+        for _ in range(4):
+            a1, a2 = sorted([rng.uniform(0.5, 89), rng.uniform(0.5, 89)])
+            cases.append(('clear_monotone', {'model': name, 'params': _params(rng, name), 'a1': a1, 'a2': a2}))
+    db = rng.uniform(-20, 40)
+    cases.append(('skytemp_inverse', {'emissivity': 0.9, 't_kelvin': 280.0, 'sky_cover': 4, 'db': db, 'dp': db - 5}))
+    for leap in (True, False):
+        w = _corpus_wea(-33.9, 151.2, 10, 12, 31, rng.choice([1, 2]), leap, rng.random() < 0.5)
+        cases.append(('closure_wea', {'wea': w}))
+        cases.append(('surface_wea', {'wea': w, 'surface': [90, 0, 0.2, True]}))
+    for _ in range(3):
+        cases.append(('hist_wea', _gen_wea_hist(rng, nops=4)))
+        cases.append(('hist_sky', _gen_sky_hist(rng)))
+    cases.append(('wea_constructor', {'lat': -33.9, 'lon': 151.2, 'tz': 10, 'kind': 'zhang_huang', 'leap': True,
+                                      'month': 12, 'day': 31, 'use_disc': False, 'cc': 3, 'rh': 55, 't': 24,
+                                      'ws': 3}))
+    cases.append(('closure_designday', {'lat': 40.7, 'lon': -74.0, 'tz': -5, 'month': 6, 'day': 21, 'dls': True,
+                                        'sky': 'clear', 'clearness': 1}))
+    cases = [list(c) for c in cases]
+    orders = [sorted(cases, key=_rarity), list(reversed(sorted(cases, key=_rarity)))]
+    sh = list(cases)
+    rng.shuffle(sh)
+    dup = []
+    for c in sh:                                  # the same question twice in a row
+        dup += [c, c] if rng.random() < 0.3 else [c]
+    orders.append(dup)
+    for order in orders[:3 if ctx.quick else 4]:
+        ctx.count('order_processes')
+        res = _run_order(order)
+        for i, r in enumerate(res):
+            ctx.count('oracle:order_case')
+            ctx.case(('order', i, json.dumps(order[i] if i < len(order) else None, sort_keys=True, default=str)))
+            if not r:
+                continue
+            op, inp = order[i] if i < len(order) else ('order', {})
+            alone = _run_order([order[i]]) if i < len(order) else [r]
+            if alone and alone[0]:
+                # fails in a process of its own too: an ordinary failing input
+                ctx.fail(op, inp, r.get('required'), r.get('observed'), r.get('sig'))
+            else:
+                prefix = order[:i + 1]
+                # shrink: drop halves of the prefix while the last case still fails
+                lo = 0
+                while len(prefix) - lo > 2:
+                    mid = lo + (len(prefix) - 1 - lo) // 2
+                    cand = prefix[mid:]
+                    rr = _run_order(cand)
+                    if len(rr) == len(cand) and rr[-1]:
+                        prefix, lo = cand, 0
+                    else:
+                        break
+                sig = dict(r.get('sig') or {}, inner_op=op, clause_order='process_order')
+                ctx.fail('order', {'order': prefix}, 'the last case holds as it does in a process of its own: %s'
+                         % (r.get('required'),), r.get('observed'), sig)
+            break
+
+
+def check_case(op, inp):
+    if op == 'hist_wea':
+        return _check_hist(inp, _WeaHist, _judge_wea, WEA_READS)
+    if op == 'hist_sky':
+        return _check_hist(inp, _SkyHist, _judge_sky, SKY_READS)
+    if op == 'order':
+        return _check_order(inp)
+    return _check_basic(op, inp)
+
 replay = check_case
 
 SUBCLAIM_OPS = {'airmass_zenith': 'airmass_about_1_at_zenith', 'airmass_monotone': 'airmass_monotone',
@@ -874,6 +2064,24 @@ FIXED_CORPUS = [
     ('night_zero', {'model': 'disc', 'alt': 2.5, 'params': {'ghi': 50.0, 'doy': 100, 'pressure': 101325}}),
     ('skytemp_inverse', {'emissivity': 0.85, 't_kelvin': 288.15, 'sky_cover': 3, 'db': 15.0, 'dp': 5.0}),
     ('extra_range', {'sc': 1366.1}),
+    ('extra_day', {'doy': 366, 'sc': 1366.1}),
+    # known finding C10-designday-feb29: DesignDay.analysis_period drops the leap flag of the sky's date
+    ('hist_sky', {'sky': 'clear', 'dates': [[2, 29, True], [2, 28, True]], 'locs': [[40.7, -74.0, -5]],
+                  'init': {'date': 0, 'dls': False, 'clearness': 1, 'tb': 0.4, 'td': 2.0, 'u': False, 'loc': 0},
+                  'ops': [['rad', 0, 1], ['dd']]}),
+    # a refused clearness leaves the sky condition as it was (failure path), read before and after
+    ('hist_sky', {'sky': 'clear', 'dates': [[3, 21, False]], 'locs': [[-0.18, -78.47, -5]],
+                  'init': {'date': 0, 'dls': False, 'clearness': 1.1, 'tb': 0.4, 'td': 2.0, 'u': False, 'loc': 0},
+                  'ops': [['rad', 0, 1], ['set_clear', 11], ['rad', 0, 1], ['dd'], ['ir'], ['set_clear', -1],
+                          ['dd']]}),
+    # read -> new location -> read on ONE Wea (both ways of changing the place), then the flag, then the data
+    ('hist_wea', {'locs': [[41.98, -87.92, -6], [-33.87, 151.21, 10], [64.1, -21.9, 0]],
+                  'period': {'st': [6, 21], 'end': [6, 21], 'timestep': 1, 'leap': False}, 'pick': None,
+                  'dnr': [500.0] * 24, 'dhr': [100.0] * 24, 'sun_up_only': False, 'immutable': False,
+                  'ops': [['ghi'], ['dirh'], ['illum', 8.0], ['set_loc', 1], ['ghi'], ['dirh'],
+                          ['dirirr', 90, 180, 0.2, True], ['illum', 8.0], ['sunup', 0], ['mut_loc', 2], ['ghi'],
+                          ['set_enforce', True], ['ghi'], ['bad_dnr', 'dtype'], ['ghi'], ['item_dnr', 12, 0],
+                          ['ghi'], ['dup_ghi'], ['face', 3, 0.2, True]]}),
 ]
 # real Wea objects: build, set enforce_on_hour (second step), then evaluate -- both flag states, timestep 1 and
 # >1, leap / non-leap, northern and southern hemisphere
@@ -950,6 +2158,26 @@ def _oracle_cases(ctx):
         yield 'surface_wea', {'wea': spec, 'surface': [90, 0, 0.2, True]}
         yield 'surface_wea', {'wea': spec, 'surface': [0, 0, 0.2, True], 'face_all': True, 'face_limit': 12}
         yield 'illum_wea', {'wea': spec, 'dew': rng.uniform(-30, 28)}
+    # histories on one object: reads in any order and repeated, every setter, refused operations in between
+    n_hist = 500 if not ctx.quick else 150 if big else 70
+    for _ in range(n_hist):
+        yield 'hist_wea', _gen_wea_hist(rng, ctx)
+    for _ in range(n_hist):
+        yield 'hist_sky', _gen_sky_hist(rng, ctx)
+    # rare day numbers / solar constants of the extraterrestrial irradiance, one by one
+    for doy in [1, 2, 59, 60, 61, 365, 366, 100.5, 365.99] + [rng.randrange(1, 367) for _ in range(40)]:
+        yield 'extra_day', {'doy': doy, 'sc': rng.choice([1366.1, 1366.1, 1355, 1000.0])}
+    # Wea.from_zhang_huang_solar: the consumer of the split (leap years incl. 29 Feb and day 366, both splits)
+    for _ in range(24 if big else 8):
+        lat, lon, tz = rng.choice(gen_locations(rng))
+        leap = rng.random() < 0.6
+        month, day = rng.choice([(12, 31), (2, 29 if leap else 28), (1, 1), (rng.randrange(1, 13),
+                                                                            rng.randrange(1, 28))])
+        cc, rh, t, _t3, ws = gen_weather(rng)
+        ctx.count('wea_zhang_huang_leap:%s' % leap)
+        yield 'wea_constructor', {'lat': lat, 'lon': lon, 'tz': tz, 'kind': 'zhang_huang', 'leap': leap,
+                                  'month': month, 'day': day, 'use_disc': rng.random() < 0.5, 'cc': cc, 'rh': rh,
+                                  't': t, 'ws': ws, 'timestep': rng.choice([1, 1, 2, 3])}
     for _ in range(6 if big else 1):
         lat, lon, tz = rng.choice(gen_locations(rng))
         base = {'lat': lat, 'lon': lon, 'tz': tz, 'timestep': rng.choice([1, 1, 2]) if big else 1,
@@ -1005,7 +2233,64 @@ def oracle(ctx):
             ctx.count('night_zero:' + inp['model'])
         return res
 
-    run_oracle_cases(ctx, _oracle_cases(ctx), check_and_count)
+    executed = []
+
+    def recording(op, inp):
+        executed.append([op, inp])
+        return check_and_count(op, inp)
+
+    run_oracle_cases(ctx, _oracle_cases(ctx), recording)
+    if len(ctx.failures) < 200:
+        _order_slice(ctx)
+    _verify_failures(ctx, executed)
+
+
+def _verify_failures(ctx, executed):
+    """Make the reported failing input replayable: a failure found in this (long-lived) process is re-evaluated
+    in a FRESH process; when it only fails after earlier calls (module-level state), it is turned into an `order`
+    failure carrying the shortest prefix of the executed oracle cases that reproduces it."""
+    known = core.load_known(PROP)
+    tried = 0
+    for idx, f in enumerate(ctx.failures):
+        if f['op'] == 'order' or any(core.matches(f['sig'], k) for k in known):
+            continue
+        tried += 1
+        if tried > 4:
+            break
+        alone = _run_order([[f['op'], f['input']]])
+        if alone and alone[0]:
+            if idx:                                   # a verified failure goes first
+                ctx.failures.insert(0, ctx.failures.pop(idx))
+            return
+        key = json.dumps([f['op'], f['input']], sort_keys=True, default=str)
+        pos = next((i for i, c in enumerate(executed) if json.dumps(c, sort_keys=True, default=str) == key), None)
+        if pos is None:
+            continue
+        same = [c for c in executed[:pos] if c[0] == f['op']][-40:]
+        for prefix in (same, executed[max(0, pos - 60):pos]):
+            order = prefix + [[f['op'], f['input']]]
+            res = _run_order(order)
+            if len(res) == len(order) and res[-1]:
+                while len(order) > 2:                 # shrink: drop the first half while the last still fails
+                    cand = order[(len(order) - 1) // 2:]
+                    rr = _run_order(cand)
+                    if len(rr) == len(cand) and rr[-1]:
+                        order = cand
+                    else:
+                        break
+                while len(order) > 2:                 # then single cases from the front
+                    cand = order[1:]
+                    rr = _run_order(cand)
+                    if len(rr) == len(cand) and rr[-1]:
+                        order = cand
+                    else:
+                        break
+                sig = dict(f['sig'], inner_op=f['op'], clause_order='process_order', op='order')
+                ctx.failures.pop(idx)
+                ctx.failures.insert(0, {'op': 'order', 'input': {'order': order},
+                                        'required': 'the last case holds as it does in a process of its own: %s'
+                                        % (f['required'],), 'observed': f['observed'], 'sig': sig})
+                return
 
 
 LEVEL_TEXT = ('Machine-checked Lean 4 theorems over the real-number instance of an executable model of '
@@ -1015,7 +2300,11 @@ LEVEL_TEXT = ('Machine-checked Lean 4 theorems over the real-number instance of 
               'non-negative, non-decreasing in altitude on (0, 90] and below the extraterrestrial value, '
               'Zhang-Huang and DISC outputs are clamped non-negative, calc_sky_temperature inverts the infrared '
               'law, and the directional-irradiance identities (upward surface = global horizontal, total = sum, '
-              'surface facing the sun receives DNI). The same definitions, run on Float by a compiled driver, are '
+              'surface facing the sun receives DNI); for the stateful classes (Wea, ASHRAEClearSky / ASHRAETau in a '
+              'DesignDay) an object state machine with theorems for ALL histories: every read after any history '
+              'equals the read of a fresh object with the established public state, refused operations and reads '
+              'leave the state unchanged, closure / upward-surface / clearness-range / below-extraterrestrial hold '
+              'after any history. The same definitions, run on Float by a compiled driver, are '
               'compared with the real functions on every run; tables are regenerated from the source. '
               'PARTIAL: closeness of the 7 air-mass formulas, the extraterrestrial range, finiteness and the '
               'sign of DIRINT / illuminance outputs are sampled on the real code only.')
